@@ -565,3 +565,63 @@ func VerifH_C14_fieldOpsUnicode() {
 	vf.Assert(got == c.want, "field-op-semantics-on-characters")
 	vf.Reach("unicode-case-checked")
 }
+
+// C14.H6: one rule tree (doif.Checker) is shared by all processors of a pipeline and evaluated without a
+// lock, so "the verdict is a function of rule and event" includes: evaluating it does not write to the
+// tree. The engine counts the stores that hit memory reachable from the tree while Check runs.
+func VerifH_C14_checkerReadOnly() {
+	fops := []string{"equal", "contains", "contains_any", "prefix", "suffix"}
+	var leaves []Node
+	mk := func(n Node, err error) {
+		if err != nil {
+			vf.Fail("constructor-rejects-valid-rule")
+			return
+		}
+		leaves = append(leaves, n)
+	}
+	op := fops[vf.Choose("op", len(fops))]
+	cs := vf.Choose("case-sensitive", 2) == 1
+	mk(NewFieldOpNode(op, "f", cs, [][]byte{[]byte("Ab")}))
+	switch vf.Choose("second-leaf", 4) {
+	case 0:
+		mk(NewLenCmpOpNode("byte_len_cmp", "f", "ge", 2))
+	case 1:
+		mk(NewLenCmpOpNode("array_len_cmp", "arr", "lt", 3))
+	case 2:
+		mk(NewCheckTypeOpNode("f", [][]byte{[]byte("string"), []byte("number")}))
+	case 3:
+		mk(NewTsCmpOpNode("ts", "unixtime", "lt", "const", time.Unix(1000, 0), 0, 10*time.Second))
+	}
+	if len(leaves) != 2 {
+		return
+	}
+	tree, err := NewLogicalNode([]string{"and", "or"}[vf.Choose("logic", 2)], leaves)
+	if err != nil {
+		vf.Fail("constructor-rejects-valid-rule")
+		return
+	}
+	if vf.Choose("negated", 2) == 1 {
+		tree, err = NewLogicalNode("not", []Node{tree})
+		if err != nil {
+			vf.Fail("constructor-rejects-valid-rule")
+			return
+		}
+	}
+	docs := []string{`{"f":"xxABzz","arr":[1,2],"ts":"990"}`, `{"f":"ab","arr":[],"ts":1200}`, `{"f":7,"ts":"garbage"}`, `{"other":1}`, `{"f":"ABCDEFGHIJKLMNOPQRSTUVWXYZ abcdefghijklmnopqrstuvwxyz"}`}
+	for round := 0; round < 2; round++ {
+		root := insaneJSON.Spawn()
+		if root.DecodeString(docs[vf.Choose("doc", len(docs))]) != nil {
+			vf.Fail("bad-template")
+			return
+		}
+		data := NewEventData(root)
+		writes := vf.SharedWrites(tree, func() { tree.Check(data) })
+		if vf.Param("twin", 0) == 1 {
+			vf.Assert(writes != 0, "evaluating-a-rule-does-not-write-to-the-shared-rule-tree")
+			return
+		}
+		vf.Assert(writes == 0, "evaluating-a-rule-does-not-write-to-the-shared-rule-tree")
+		insaneJSON.Release(root)
+	}
+	vf.Reach("read-only-checked")
+}
